@@ -13,6 +13,14 @@ CLAIMED = {
    text="TLC proves design level (both enumeration orders of prepare) satisfies the definition level (bijection onto 0..N-1, mutual inverses) for all 1638 (lattice, mode) pairs up to 3 sites x 3 orbitals x 3 spins; every one of them is built in the real library under shuffled insertion orders/labellings and the recorded getInfo/getIndex tables are validated against the definition level by TLC (IndexTrace.tla).",
    note="TLC; harness/pv_index.hpp; label hash collisions not explored",
    tech="TLA+ specification of the index enumeration + TLC; trace validation of recorded lookup tables"),
+ "C15": dict(cat="model_checking", ref="6 C15",
+   text="TLC checks transparency, exactness of the precomputed window and fill coverage of the storage layout (spec/MatsubaraStore.tla) for every window size N<=4 (thorough 6) on the box +-(2N+3); the real MatsubaraContainer4 template is instantiated over a probe source whose value encodes its arguments and its Fill/Lookup events are validated against the specification by TLC (StoreTrace.tla); real Vertex4 objects are read through the storage and through value() bit-for-bit on the same box, and value() is compared with chi - chi0 assembled from the library's own chi and G.",
+   note="TLC; probe encoding; lookups before the first compute() (null source) are outside the specification; bounded N",
+   tech="TLA+ specification of the storage layout + TLC; trace validation of probe-instrumented template; bitwise relational check on Vertex4"),
+ "C13": dict(cat="model_checking", ref="6 C13",
+   text="TLC model-checks the container state machine (spec/Container4.tla): alias soundness under the two exchange symmetries (with sign), owner soundness, NonTrivialElements = elements of ElementsMap, evaluability after bulk computation, on every state reachable in 3 (thorough 4) calls; every explored transition is replayed into a real TwoParticleGFContainer comparing outcome, maps, element identities, statuses and every evaluated value against a directly constructed TwoParticleGF; random histories on 2-4 mode models are validated by TLC (ContainerTrace.tla); the exchange symmetries are checked on direct objects.",
+   note="TLC; harness projection by element address; clearTerms=false only; single rank",
+   tech="TLA+ state machine + TLC; replay of every transition; trace validation of recorded histories"),
 }
 NOT_YET = "check not built yet in this round (planned in DESIGN.md section 6); not claimed until it runs"
 
